@@ -207,7 +207,7 @@ var freePtrs = []string{"/pub", "/p", "/serv", "/", "/publicKe", "/s", "/x", "/a
 func genC11(r *rand.Rand, n int, emit func(string)) {
 	for i := 0; i < n; i++ {
 		doc := M{"publicKey": []interface{}{poolKey(r, "k1"), poolKey(r, "k2")},
-			"service": []interface{}{validService(r, "s1"), validService(r, "s2")},
+			"service":     []interface{}{validService(r, "s1"), validService(r, "s2")},
 			"alsoKnownAs": []interface{}{"https://a.example/1"},
 			"a":           M{"b": 1, "publicKey": []interface{}{"inner"}, "service": []interface{}{M{"id": "inner"}}},
 			"other":       []interface{}{1, 2}, "x": "y", "publickey": 1, "Service": 2, "~publicKey": 3, "/publicKey": 4, "": M{"publicKey": 5}}
